@@ -81,6 +81,17 @@ def filterIds (nTop nBottomPerId nEpsPerId : Nat) (ids : List String) : List (Op
   List.replicate nTop none ++ (ids.map (fun i => List.replicate nBottomPerId (some i))).flatten
     ++ (ids.map (fun i => List.replicate nEpsPerId (some i))).flatten
 
+/-- `parameters[end_bottom:].reshape(n_samples, n_observables, n_times)[s, r, j]` (`__call__` / `evaluateS1` of the
+    filter posterior, `end_bottom = n_top + n_samples * n_hdim`): the position of the parameter vector that is read
+    as the noise realisation of simulated individual `s`, output `r`, time `j` -/
+def epsSlot (nTop nBottomPerId nSim R T s r j : Nat) : Nat :=
+  nTop + nSim * nBottomPerId + (s * (R * T) + r * T + j)
+
+/-- the slots of all noise realisations, simulated individual by individual, output by output, time by time -/
+def epsSlots (nTop nBottomPerId nSim R T : Nat) : List Nat :=
+  (List.range nSim).flatMap (fun s => (List.range R).flatMap (fun r =>
+    (List.range T).map (fun j => epsSlot nTop nBottomPerId nSim R T s r j)))
+
 /-! ### reading a dataset back (posterior predictive model, pointwise log-likelihood) -/
 
 /-- `param_map`: model name ↦ name in the dataset (identity when unmapped) -/
